@@ -35,6 +35,7 @@ def parseEv? (s : String) : Option Ev :=
   | ["drainFail", c] => c.toNat?.map Ev.drainFail
   | ["sendReturn", i] => i.toNat?.map Ev.sendReturn
   | ["closeCall"] => some .closeCall
+  | ["closeCallInRecv"] => some .closeCallInRecv
   | ["writerClose", c] => c.toNat?.map Ev.writerClose
   | ["closeReturn"] => some .closeReturn
   | ["cfgWrite", c] => c.toNat?.map Ev.cfgWrite
